@@ -187,7 +187,7 @@ func c03(c *Ctx) {
 			}
 			defer sb.Close()
 			oracle.CheckDocValues(c.R, []oracle.DVTarget{{Tag: id + "/A", Seg: sa, M: ma}, {Tag: id + "/B", Seg: sb, M: mb}},
-				rng, uint64(dvc), []string{"zz_absent", "_id"})
+				rng, uint64(dvc), []string{"zz_absent"})
 			// the other loader: persisted and re-opened
 			p := c.Scratch.Path("c03")
 			defer removeFile(p)
